@@ -650,7 +650,7 @@ def _run_step(op, s, a):
     if nm in ("backward_matmul", "backward_solve"):
         res = op.matmul(a["rhs"]) if nm == "backward_matmul" else op.solve(a["rhs"])
         if tuple(res.shape) == tuple(a["cot"].shape) and res.requires_grad:
-            res.backward(a["cot"], retain_graph=True)  # (the layouts of rg tensors are views derived from a leaf)
+            _backprop([res], [a["cot"]])  # (the layouts of rg tensors are views derived from a leaf)
         return res
     if nm == "backward_iql":
         iq, ld = op.inv_quad_logdet(a.get("rhs"), logdet=True)
@@ -660,20 +660,37 @@ def _run_step(op, s, a):
                 outs.append(val)
                 cots.append(c)
         if outs:
-            torch.autograd.backward(outs, cots, retain_graph=True)
+            _backprop(outs, cots)
         return [iq, ld]
     if nm == "backward_of":
         res = _run_step(op, s["of"], a)
         outs = [t for t in _force(res) if t.is_floating_point() and t.requires_grad]
         cots = [a["_late"]("cot%d" % j, _cot_lit(s, tuple(t.shape), L.RDT[t.dtype])) for j, t in enumerate(outs)]
         if outs:
-            torch.autograd.backward(outs, cots, retain_graph=True)
+            _backprop(outs, cots)
         return res
     if nm == "detach_":
         return op.detach_()
     if nm == "requires_grad_":
         return op.requires_grad_(s["val"])
     raise HarnessError("unknown operation %r" % nm)
+
+
+def _backprop(outs, cots):
+    """Run the backward pass of `outs` with cotangents `cots` WITHOUT touching any `.grad`: torch.autograd.backward lets
+    AccumulateGrad steal a gradient that is a view of the caller's cotangent and later accumulate into it IN PLACE
+    (torch semantics, also for plain dense code), which would be reported as a mutation of the cotangent."""
+    leaves, seen, todo = [], set(), [o.grad_fn for o in outs if o.grad_fn is not None]
+    while todo:
+        fn = todo.pop()
+        if fn is None or id(fn) in seen:
+            continue
+        seen.add(id(fn))
+        if hasattr(fn, "variable"):
+            leaves.append(fn.variable)
+        todo.extend(nf for nf, _ in fn.next_functions)
+    if leaves:
+        torch.autograd.grad(outs, leaves, cots, retain_graph=True, allow_unused=True)
 
 
 def _cot_lit(s, shape, dt):
